@@ -9,7 +9,7 @@ pub struct UseMacro {
     mac_name:  syn::Ident,
     
     mac_path:  syn::Path,
-    imp_path:  Option<syn::Path>,
+    imp_path:  Vec<syn::Path>,
 
 }
 
@@ -22,7 +22,7 @@ impl UseMacro {
         
         let mac_path   = Self::create_path(Some(mod_name.clone()), mac_name.clone());
         
-        Self { mod_name,mac_name, mac_path, imp_path: None }
+        Self { mod_name,mac_name, mac_path, imp_path: Vec::new() }
     }
 
     pub fn exclude_self_macro(&self, item: &mut syn::Item){
@@ -64,8 +64,8 @@ impl UseMacro {
             path.leading_colon = None;
             return self.mac_path.eq(&path);
         }
-        if let Some(imp_path) = &self.imp_path {
-            if self.mac_path.eq( attr.path() ) || imp_path.eq( attr.path() ) {
+        if self.imp_path.len() > 0 {
+            if self.mac_path.eq( attr.path() ) || self.imp_path.iter().any(|p| p.eq( attr.path() )) {
                 return true;
             }
             return false;
@@ -82,14 +82,14 @@ impl UseMacro {
         match self.file_self_use(&item_use.tree) {
 
             (Some(p), Some(t)) => {
-                self.imp_path = Some(p);
+                self.imp_path.push(p);
                 
                 item_use.tree = t;
                 Some(item_use)
             },
 
             (Some(p), None)             => {
-                self.imp_path = Some(p);
+                self.imp_path.push(p);
                 None
             },
 
@@ -103,7 +103,7 @@ impl UseMacro {
     }
 
 
-    pub fn file_self_use(&self, item_use: &syn::UseTree ) -> (Option<syn::Path>, Option<syn::UseTree>) {
+    pub fn file_self_use(&mut self, item_use: &syn::UseTree ) -> (Option<syn::Path>, Option<syn::UseTree>) {
 
         match item_use.clone() {
     
@@ -165,23 +165,26 @@ impl UseMacro {
             // A braced group of imports in a `use` item: `{A, B, C}`.
             syn::UseTree::Group(mut use_group) => {
     
+                // every import of the macro in the group is remembered
+                let mut path = None;
                 for _ in 0..use_group.items.len(){
                     if let Some(tree) = use_group.items.pop(){
     
                         let (p,t) = self.file_self_use( &tree.into_value());
-                        if p.is_some(){
-                            if let Some(use_tree) = t {
-                                use_group.items.insert(0,use_tree);
-                            } 
-                            if use_group.items.len() > 0 {
-                                return ( p, Some(syn::UseTree::Group(use_group)) )
-                            }
-                            else { return (p, None) }
+                        if let Some(p) = p {
+                            self.imp_path.push(p.clone());
+                            path = Some(p);
                         }
-                        else {
-                            use_group.items.insert(0,t.unwrap());
-                        }
+                        if let Some(use_tree) = t {
+                            use_group.items.insert(0,use_tree);
+                        } 
                     }
+                }
+                if path.is_some(){
+                    if use_group.items.len() > 0 {
+                        return ( path, Some(syn::UseTree::Group(use_group)) )
+                    }
+                    else { return (path, None) }
                 }
                 return (None,Some(item_use.clone()));
             },
